@@ -95,7 +95,10 @@ def gen_one(rng, tier, scale=False):
         # equal, also across classes, or that define __eq__ without __hash__
         eq = None
         if base is None and rng.random() < 0.3:
-            eq = rng.choice(['equal', 'equal', 'cross', 'unhashable'])
+            eq = rng.choice(['equal', 'equal', 'cross', 'unhashable',
+                             # handlers that evaluate false (an empty
+                             # container, a zero counter)
+                             'falsy', 'empty'])
         classes.append({'base': base, 'decorated': decorated, 'names': names,
                         'maps': maps, 'methods': sorted(methods), 'eq': eq,
                         'base2': base2})
@@ -152,6 +155,18 @@ def gen_one(rng, tier, scale=False):
             new = {ev: rng.choice(sorted(defined[ci]))
                    for ev in rng.sample(EVENTS, rng.randint(1, 3))}
             ops.insert(rng.randrange(len(ops) + 1), ['remap', hi, new])
+    # a handler *class* changes its mapping between two registrations: the
+    # dict the decorator gave it is modified in place, or replaced; every
+    # registered handler concerned registers again
+    if not scale and rng.random() < 0.15:
+        cands = [i for i, c in enumerate(classes)
+                 if c['decorated'] and defined[i]]
+        if cands:
+            ci = rng.choice(cands)
+            new = {ev: rng.choice(sorted(defined[ci]))
+                   for ev in rng.sample(EVENTS, rng.randint(1, 3))}
+            ops.insert(rng.randrange(len(ops) + 1),
+                       ['remap_cls', ci, new, rng.random() < 0.6])
     return {'classes': classes, 'handlers': handlers, 'scripts': scripts,
             'ops': ops, 'inst_maps': inst_maps}
 
@@ -224,7 +239,13 @@ def run_case(case):
         base = object if spec['base'] is None else classes[spec['base']]
         ns = {meth: make_method(ci, meth) for meth in spec['methods']}
         eq = spec.get('eq')
-        if eq:
+        if eq == 'falsy':
+            ns['__bool__'] = lambda self: False
+            flags.add('eq-falsy')
+        elif eq == 'empty':
+            ns['__len__'] = lambda self: 0
+            flags.add('eq-falsy')
+        elif eq:
             ns['_eqkey'] = 'shared' if eq == 'cross' else f'k{ci}'
             ns['__eq__'] = _value_eq
             ns['__hash__'] = None if eq == 'unhashable' else _value_hash
@@ -328,6 +349,36 @@ def run_case(case):
                 d.add_handler(h)
                 flags.add('re-registration')
             flags.add('mapping-changed')
+        elif name == 'remap_cls':
+            if inside or stack:
+                return
+            ci = op[1]
+            own = vars(classes[ci]).get('__events__')
+            if not isinstance(own, dict):
+                return
+            if op[3]:
+                own.clear()
+                own.update(op[2])
+                flags.add('class-mapping-modified-in-place')
+            else:
+                own = classes[ci].__events__ = dict(op[2])
+                flags.add('class-mapping-replaced')
+            # the class itself and the undecorated classes that see its
+            # mapping through plain attribute lookup
+            # (which mapping an undecorated class shows is Python's own
+            # attribute inheritance, no code of the library is involved)
+            concerned = {ci}
+            for k, spec in enumerate(case['classes']):
+                if (not spec['decorated'] and getattr(
+                        classes[k], '__events__', None) is own):
+                    concerned.add(k)
+            for k in concerned:
+                mapping[k] = dict(op[2])
+                snapshots[k] = (own, dict(op[2]))
+            for hi in sorted(registered):
+                if case['handlers'][hi] in concerned and hi not in hmaps:
+                    d.add_handler(handlers[hi])
+                    flags.add('re-registration')
         elif name == 'burst':
             if inside or stack:
                 return
